@@ -122,6 +122,8 @@ type c04Plan struct {
 	// LongPw: the operators use long passphrases (more than 32 bytes); near misses of the passphrase - last byte
 	// changed, dropped or added, cut to 32 or 33 bytes - are tried as wrong passwords in addition to the drawn ones
 	LongPw bool `json:"long_pw,omitempty"`
+	// CaseTwins: two participants' names differ only in letter case
+	CaseTwins bool `json:"case_twins,omitempty"`
 }
 
 func c04Gen(rt *rapid.T) c04Plan {
@@ -134,6 +136,7 @@ func c04Gen(rt *rapid.T) c04Plan {
 		p.Replace = 1 + rapid.IntRange(0, p.N-1).Draw(rt, "replaced")
 	}
 	p.LongPw = rapid.Bool().Draw(rt, "longPw")
+	p.CaseTwins = rapid.IntRange(0, 2).Draw(rt, "caseTwins") == 0
 	return p
 }
 
@@ -151,6 +154,10 @@ func c04Run(t *testing.T, st *vstat.Stats, p c04Plan) (v *viol) {
 		cfg := world.Config{N: p.N, Seed: []byte(fmt.Sprintf("c04|%d|%d|%d", p.N, p.T, p.Tag)), Root: root}
 		if p.LongPw {
 			cfg.PasswordSuffix = " correct horse battery staple plus some more words"
+		}
+		if p.CaseTwins {
+			cfg.Names = world.CaseTwinNames(p.N)
+			st.Class("participants-named-alike-up-to-letter-case")
 		}
 		w, err := world.New(cfg)
 		if err != nil {
